@@ -558,7 +558,7 @@ def render(doc, rnd, hoist=False, force_dtd=False):
             for m in doc.in_dtd:
                 decls.append(r.node(m))
             extra = ["<!ELEMENT a (#PCDATA)>", "<!ATTLIST a b CDATA #IMPLIED>", "<!NOTATION n SYSTEM 'x'>",
-                     "<!NOTATION n2 SYSTEM \"o'reilly.cgi\">", "<!NOTATION n3 PUBLIC 'a\"b' \"c'd\">",
+                     "<!NOTATION n2 SYSTEM \"o'reilly.cgi\">", "<!NOTATION n3 PUBLIC \"a'b\" 'c\"d'>",
                      "<!NOTATION n4 SYSTEM '>'>", "<!ATTLIST a c CDATA \"x>y\" d CDATA '<!ENTITY hidden \"h\">'>",
                      "<!ENTITY ext2 PUBLIC \"-//o'r//\" 'e\"2.xml'>", "<!ENTITY % pe2 SYSTEM \"p'e.dtd\">",
                      "<!ENTITY % pe 'ignored'>", "<!ENTITY ext SYSTEM 'e.xml'>", "<!ENTITY unp SYSTEM 'u.bin' NDATA n>",
